@@ -133,7 +133,9 @@ class Boc:
             result['size_bytes'] = data[4]
         else:
             raise BocError(f'unknown boc prefix: {data[:4]}')
-        if data_len - 5 < 1 + 5 * result['size_bytes']:
+        # the fixed part after the flag byte is off_bytes (1 byte) and the three counters of size_bytes each;
+        # everything behind them is length-checked field by field below
+        if data_len - 5 < 1 + 3 * result['size_bytes']:
             raise BocError(f'can\'t parse boc header: {data[:4]}')
         offset_bytes = data[5]
         result['offset_bytes'] = offset_bytes
